@@ -39,9 +39,18 @@ def make_pool(env, retry=True):
     return pool
 
 
-def run_pool(pool, env, N, E, efn_bits=0, use_callable=False, return_results=True):
+def inputs_of(N, dup):
+    """dup 0: pairwise distinct inputs; 1: all inputs compare equal; 2: consecutive pairs compare equal."""
+    if dup == 1:
+        return [0] * N
+    if dup == 2:
+        return [i // 2 for i in range(N)]
+    return list(range(N))
+
+
+def run_pool(pool, env, N, E, efn_bits=0, use_callable=False, return_results=True, dup=0):
     """Returns (kind, value): kind in ret / poolerror / exc / hang."""
-    sources = [iter(range(N))]
+    sources = [iter(inputs_of(N, dup))]
     if use_callable:
         sources.append(lambda worker: 7)
     enqueue_fn = None
@@ -66,8 +75,8 @@ def run_pool(pool, env, N, E, efn_bits=0, use_callable=False, return_results=Tru
         return "exc", e
 
 
-def expected(N, use_callable=False):
-    return [poolenv.target(x, 7) if use_callable else poolenv.target(x) for x in range(N)]
+def expected(N, use_callable=False, dup=0):
+    return [poolenv.target(x, 7) if use_callable else poolenv.target(x) for x in inputs_of(N, dup)]
 
 
 def multiset_diff(ret, exp):
@@ -81,14 +90,14 @@ def multiset_diff(ret, exp):
     return exp, extra      # missing, extra
 
 
-def h_run(W, N, E, D, poison, efn, callsrc, dbl, s0, s1, s2, s3, s4, s5, s6, s7, s8, s9, s10, s11):
+def h_run(W, N, E, D, poison, efn, callsrc, dbl, dup, s0, s1, s2, s3, s4, s5, s6, s7, s8, s9, s10, s11):
     # The symbolic integers never enter pyworkers code here: they are consumed by comparisons in _conc() and
     # Sched.pick() (SymbolicInt.__eq__/__bool__ talk to the solver directly), so the opcode tracer is not needed.
     with notrace():
-        return _h_run(W, N, E, D, poison, efn, callsrc, dbl, [s0, s1, s2, s3, s4, s5, s6, s7, s8, s9, s10, s11])
+        return _h_run(W, N, E, D, poison, efn, callsrc, dbl, dup, [s0, s1, s2, s3, s4, s5, s6, s7, s8, s9, s10, s11])
 
 
-def _h_run(W, N, E, D, poison, efn, callsrc, dbl, ss):
+def _h_run(W, N, E, D, poison, efn, callsrc, dbl, dup, ss):
     vos.reset()
     W = max(1, _conc(W, 4))
     N = _conc(N, 7)
@@ -98,11 +107,12 @@ def _h_run(W, N, E, D, poison, efn, callsrc, dbl, ss):
     efn = _conc(efn, 64)
     callsrc = _conc(callsrc, 2)
     dbl = _conc(dbl, 2)
+    dup = _conc(dup, 3)
     sched = Sched(ss)
     env = poolenv.Env(sched, W, D, poison=(poison - 1 if poison else None), double_ready=bool(dbl))
     ev("run", W, N, E, D, poison, efn, callsrc, dbl)
     pool = make_pool(env, retry=True)
-    kind, val = run_pool(pool, env, N, E, efn_bits=efn, use_callable=bool(callsrc))
+    kind, val = run_pool(pool, env, N, E, efn_bits=efn, use_callable=bool(callsrc), dup=dup)
     interesting = any(e[0] == "dead" for e in env.events)
     for e in env.events:
         ev(*e)
@@ -119,17 +129,17 @@ def _h_run(W, N, E, D, poison, efn, callsrc, dbl, ss):
         if N == 0:
             return Outcome(None, interesting)
         return Outcome("c07.run.returns-None-with-inputs", True)
-    missing, extra = multiset_diff(val, expected(N, bool(callsrc)))
+    missing, extra = multiset_diff(val, expected(N, bool(callsrc), dup))
     if extra:
-        dup = [r for r in extra if r in expected(N, bool(callsrc))]
-        return Outcome("c07.run.duplicate-result" if dup else "c07.run.foreign-result", True, "extra=%r missing=%r" % (extra, missing))
+        dups = [r for r in extra if r in expected(N, bool(callsrc), dup)]
+        return Outcome("c07.run.duplicate-result" if dups else "c07.run.foreign-result", True, "extra=%r missing=%r" % (extra, missing))
     if missing:
         return Outcome("c07.run.missing-result", True, "missing=%r" % (missing,))
     return Outcome(None, interesting)
 
 
 _params = OrderedDict([("W", (1, 3)), ("N", (0, 6)), ("E", (0, 2)), ("D", (0, 3)), ("poison", (0, 6)), ("efn", (0, 63)),
-                       ("callsrc", (0, 1)), ("dbl", (0, 1))] + [("s%d" % i, (0, 5)) for i in range(NSCHED)])
+                       ("callsrc", (0, 1)), ("dbl", (0, 1)), ("dup", (0, 2))] + [("s%d" % i, (0, 5)) for i in range(NSCHED)])
 
 _FUNCS = ["pyworkers.pool:Pool.run", "pyworkers.pool:Pool.__init__", "pyworkers.pool:Pool._get_all_workers_ids",
           "pyworkers.pool:Pool._get_all_queues", "pyworkers.pool:Pool._aux_connection"]
@@ -137,10 +147,10 @@ _FUNCS = ["pyworkers.pool:Pool.run", "pyworkers.pool:Pool.__init__", "pyworkers.
 H_RUN = Harness(
     "run", "vf.props.c07:h_run", _params,
     tiers={
-        "quick": {"ranges": {"W": (1, 2), "N": (0, 4), "E": (0, 1), "D": (0, 2), "poison": (0, 1)},
+        "quick": {"ranges": {"W": (1, 2), "N": (0, 4), "E": (0, 1), "D": (0, 2), "poison": (0, 1), "dup": (0, 1)},
                   "fixed": {"callsrc": 0, "dbl": 0, "efn": 0},
-                  "partition": ["W", "N", "E", "D"], "filter": (lambda f: f["D"] < 2 or f["N"] <= 2), "timeout": 200,
-                  "twin_fixed": {"W": 2, "N": 3, "E": 1, "D": 1}},
+                  "partition": ["W", "N", "E", "D", "dup"], "filter": (lambda f: (f["D"] < 2 or f["N"] <= 2) and (f["dup"] == 0 or (f["N"] in (2, 3) and f["D"] == 1))), "timeout": 200,
+                  "twin_fixed": {"W": 2, "N": 3, "E": 1, "D": 1, "dup": 0}},
         "thorough": {"ranges": {"N": (0, 5), "efn": (0, 3)},
                      "partition": ["W", "N", "E", "D", "poison"], "filter": (lambda f: f["poison"] <= f["N"]), "timeout": 1500,
                      "twin_fixed": {"W": 2, "N": 3, "E": 1, "D": 1, "poison": 0}},
